@@ -13,7 +13,7 @@ import FuelVerif.Lemmas.SparseRefineInsert
 namespace FuelVerif.SmtRefine
 open FuelVerif FuelVerif.SmtStore FuelVerif.SmtBytes FuelVerif.Gen.Sparse FuelVerif.Smt
 
-variable (H : Bytes → Bytes) (hok : HashOK H) {σ : Type} (S : StoreOps σ)
+variable (H : Bytes → Bytes) {U : T → Prop} (hok : HashOn H U) {σ : Type} (S : StoreOps σ)
 
 /-! ### `Iterator::find` -/
 
@@ -174,8 +174,8 @@ theorem load_stored {st : σ} {e : Nat} {x : T} (hx : x ≠ .empty) (hs : Stored
 theorem zero_bne (x : T) (hx : x = .empty) : (hb H hok x != zeroSum) = false := by
   subst hx; simp [hb_empty]
 
-theorem nonzero_bne (x : T) (hx : x ≠ .empty) : (hb H hok x != zeroSum) = true := by
-  simp [hb_ne_zero H hok hx]
+theorem nonzero_bne (x : T) (hU : U x) (hx : x ≠ .empty) : (hb H hok x != zeroSum) = true := by
+  simp [hb_ne_zero H hok hU hx]
 
 variable (laws : StoreLaws S)
 include laws
@@ -185,6 +185,7 @@ all-zero key, at a placeholder) implements the structural `delete`: the terminal
 orphaned leaf moves up -/
 theorem deletePath_rep (fs : List Frame) (c0 : T) (st0 : σ)
     (hcan : Canon bit32 width 0 (plug c0 fs)) (hcn : Canon bit32 width 0 (plugC .empty fs))
+    (hU0 : ∀ u, IsSub u (plug c0 fs) → U u) (hUn : ∀ u, IsSub u (plugC .empty fs) → U u)
     (hst : Stored H hok S st0 0 (plug c0 fs)) (hc0 : c0 = .empty ∨ ∃ k v, c0 = .leaf k v) :
     ∃ s', deleteWithPathSet H S ⟨nodeOf H hok 0 (plug c0 fs), st0⟩
         (nodeOf H hok (0 + fs.length) c0 :: pnodes H hok 0 c0 fs) (sideHashes H hok fs) = (s', .ok ()) ∧
@@ -200,16 +201,16 @@ theorem deletePath_rep (fs : List Frame) (c0 : T) (st0 : σ)
     refine sibsStored_congr H hok S fs hsibs0 (fun g hg h hm => ?_)
     rw [hget1, if_neg]
     simp only [List.mem_cons, not_or]
-    refine ⟨?_, fun hin => (spineH_fresh H hok hcan h hin).2 g hg hm⟩
+    refine ⟨?_, fun hin => (spineH_fresh H hok hcan hU0 h hin).2 g hg hm⟩
     rcases hc0 with e | ⟨k, v, e⟩
-    · subst e; exact mem_hashesOf_ne_zero H hok hm
+    · subst e; exact mem_hashesOf_ne_zero H hok (fun x hx => hU0 x (isSub_plug_sib fs _ x g hg hx)) hm
     · subst e
       intro e2; rw [e2] at hm
-      exact focus_fresh H hok hcan (by intro h; cases h) g hg hm
+      exact focus_fresh H hok hcan hU0 (by intro h; cases h) g hg hm
   cases fs with
   | nil =>
     refine ⟨⟨.placeholder, st1⟩, delete_finish H S _ _ _ _ st1 hst1 .placeholder [] [] st1 rfl _ _ rfl, ?_⟩
-    exact ⟨trivial, rfl, trivial⟩
+    exact ⟨trivial, rfl, trivial, fun u hu => absurd hu id⟩
   | cons f0 fs1 =>
     obtain ⟨_, _, _, hsz, _, hcs⟩ := canon_frame (canon_plug_cons hcan)
     have hc0sz : c0.size ≤ 1 := by
@@ -231,11 +232,11 @@ theorem deletePath_rep (fs : List Frame) (c0 : T) (st0 : σ)
         simp only [plugC, plug]
         rw [plugC1_empty_node f0 a b hsib]
         exact plugC_node fs1 _ (plug1_isNode f0 _)
-      rw [htree] at hcn ⊢
+      rw [htree] at hcn hUn ⊢
       refine ⟨_, delete_finish H S _ _ _ _ st1 hst1 _ _ _ _ hR _ _
-        (mergeSides_plug H hok S false (f0 :: fs1) c0 .empty 0 st1 (sibNe_of_canon H hok _ c0 0 hcan)), ?_⟩
-      exact ⟨hcn, rfl, stored_mergeStore H hok S laws false (f0 :: fs1) c0 .empty 0 st1
-        (spineH_fresh H hok hcn) (fun e => by cases e) trivial hsibs1⟩
+        (mergeSides_plug H hok S false (f0 :: fs1) c0 .empty 0 st1 (sibNe_of_canon H hok _ c0 0 hcan hU0)), ?_⟩
+      exact ⟨hcn, rfl, stored_mergeStore H hok S laws false (f0 :: fs1) c0 .empty 0 st1 hUn
+        (spineH_fresh H hok hcn hUn) (fun e => by cases e) trivial hsibs1, hUn⟩
     | leaf k2 v2 =>
       -- the sibling is a leaf: it is orphaned and moves up past every placeholder sibling
       obtain ⟨zs, rest, hsplit, hzs, hrest⟩ := split_empty_prefix fs1
@@ -264,18 +265,23 @@ theorem deletePath_rep (fs : List Frame) (c0 : T) (st0 : σ)
           rw [show sideHashes H hok (f0 :: fs1) = hb H hok f0.sib :: sideHashes H hok fs1 from rfl]
           simp only [deleteR, hg0, hof0, hfirst, ↓reduceIte, hskip]
           rfl
-        rw [hleafT]
+        rw [hleafT] at hUn ⊢
         refine ⟨_, delete_finish H S _ _ _ _ st1 hst1 _ _ _ _ hR _ _ rfl, ?_⟩
         rw [hsib]
-        exact ⟨trivial, rfl, hstleaf⟩
+        exact ⟨trivial, rfl, hstleaf, hUn⟩
       · -- re-attach the orphan below the first non-placeholder sibling `g`
         subst e
         have hfs : f0 :: fs1 = (f0 :: zs) ++ (g :: fs2) := by rw [hsplit]; rfl
+        have hUg : U g.sib := by
+          apply hU0
+          rw [hfs]
+          exact isSub_plug_sib ((f0 :: zs) ++ (g :: fs2)) c0 g.sib g
+            (List.mem_append_right _ List.mem_cons_self) (IsSub.refl hgne)
         have hcan2 : Canon bit32 width 0 (plug (plug c0 (f0 :: zs)) (g :: fs2)) := by
           rw [← plug_append, ← hfs]; exact hcan
         have hside : iterFind (fun s => s != zeroSum) (sideHashes H hok (g :: fs2)) =
             (some (hb H hok g.sib), sideHashes H hok fs2) :=
-          iterFind_hit _ _ _ (nonzero_bne H hok _ hgne)
+          iterFind_hit _ _ _ (nonzero_bne H hok _ hUg hgne)
         have hpn : pnodes H hok 0 c0 (f0 :: fs1) =
             pnodes H hok (0 + (g :: fs2).length) c0 (f0 :: zs) ++
               (nodeOf H hok (0 + fs2.length) (g.plug (plug c0 (f0 :: zs))) ::
@@ -288,8 +294,8 @@ theorem deletePath_rep (fs : List Frame) (c0 : T) (st0 : σ)
           have key : ∀ x : T, (x = .empty ∨ IsSub x (plug c0 (f0 :: zs))) → hb H hok x ≠ hb H hok g.sib := by
             intro x hx e
             rcases hx with e2 | hx
-            · subst e2; exact hb_ne_zero H hok hgne e.symm
-            · have e3 := hb_injective H hok e
+            · subst e2; exact hb_ne_zero H hok hUg hgne e.symm
+            · have e3 := hb_injective H hok (hU0 x (by rw [hfs, plug_append]; exact isSub_plug _ _ _ hx)) hUg e
               subst e3
               exact sub_not_in_sib (g :: fs2) _ 0 hcan2 _ hx g List.mem_cons_self (IsSub.refl hgne)
           rw [ha, hb']
@@ -306,7 +312,7 @@ theorem deletePath_rep (fs : List Frame) (c0 : T) (st0 : σ)
               pnodes H hok 0 (g.plug (plug c0 (f0 :: zs))) fs2) := by
           rw [hpn, iterFind_skip _ _ _ hnomatch]
           exact iterFind_hit _ _ _ hmatch
-        have hsne := (sibNe_of_canon H hok (g :: fs2) _ 0 hcan2)
+        have hsne := (sibNe_of_canon H hok (g :: fs2) _ 0 hcan2 (by rw [← plug_append, ← hfs]; exact hU0))
         have hstep := merge_step_node H hok g (plug c0 (f0 :: zs)) (.leaf k2 v2) (0 + fs2.length)
           (0 + fs1.length + 1) hsne.1
         have hR : deleteR H S st1 (sideHashes H hok (f0 :: fs1)) (pnodes H hok 0 c0 (f0 :: fs1)) =
@@ -320,22 +326,23 @@ theorem deletePath_rep (fs : List Frame) (c0 : T) (st0 : σ)
           simp only [plugC, plug]
           rw [plugC1_leaf_nonempty g k2 v2 hgne]
           exact plugC_node fs2 _ (plug1_isNode g _)
-        rw [hleafT, htree] at hcn ⊢
+        rw [hleafT, htree] at hcn hUn ⊢
         refine ⟨_, delete_finish H S _ _ _ _ st1 hst1 _ _ _ _ hR _ _
           (mergeSides_plug H hok S false fs2 (g.plug (plug c0 (f0 :: zs))) (g.plug (.leaf k2 v2)) 0 _ hsne.2), ?_⟩
         have hsibs2 : SibsStored H hok S st1 0 (g :: fs2) := by
           have := hsibs1; rw [hfs] at this
           exact sibsStored_suffix H hok S _ _ this
-        exact ⟨hcn, rfl, stored_mergeStore H hok S laws false (g :: fs2) (plug c0 (f0 :: zs)) (.leaf k2 v2) 0 st1
-          (spineH_fresh H hok hcn) (fun e => by cases e) hstleaf hsibs2⟩
+        exact ⟨hcn, rfl, stored_mergeStore H hok S laws false (g :: fs2) (plug c0 (f0 :: zs)) (.leaf k2 v2) 0 st1 hUn
+          (spineH_fresh H hok hcn hUn) (fun e => by cases e) hstleaf hsibs2, hUn⟩
 
 /-- **`MerkleTree::delete` refines the structural `delete`**: on a state representing the canonical tree `t` it
 succeeds and leaves a state representing `delete k t` -/
-theorem delete_rep {s : SMT σ} {t : T} (hr : Rep H hok S s t) (k : Key32) :
+theorem delete_rep {s : SMT σ} {t : T} (hr : Rep H hok S s t) (k : Key32)
+    (hUn : ∀ u, IsSub u (Smt.delete bit32 0 k t) → U u) :
     ∃ s', SmtStore.delete H S s k.val = (s', .ok ()) ∧ Rep H hok S s' (Smt.delete bit32 0 k t) := by
   obtain ⟨root, st⟩ := s
   have hr0 := hr
-  obtain ⟨hcan, hroot, hst⟩ := hr
+  obtain ⟨hcan, hroot, hst, hU0⟩ := hr
   simp only at hroot hst
   subst hroot
   unfold SmtStore.delete
@@ -343,7 +350,7 @@ theorem delete_rep {s : SMT σ} {t : T} (hr : Rep H hok S s t) (k : Key32) :
   by_cases ht : t = .empty
   · subst ht
     exact ⟨_, by rw [if_pos (hb_empty H hok)], hr0⟩
-  · rw [if_neg (hb_ne_zero H hok ht), pathSet_zipper H hok S hr0 k]
+  · rw [if_neg (hb_ne_zero H hok (hU0 t (IsSub.refl ht)) ht), pathSet_zipper H hok S hr0 k]
     simp only
     have hop := onPath_frames k t 0
     have hterm := term_cases k t 0
@@ -352,16 +359,16 @@ theorem delete_rep {s : SMT σ} {t : T} (hr : Rep H hok S s t) (k : Key32) :
     generalize term k 0 t = c0 at hterm hplug ⊢
     subst hplug
     have hcn := canon_delete bit32 width k 0 _ hcan
-    rw [delete_plug k fs c0 0 hop] at hcn ⊢
+    rw [delete_plug k fs c0 0 hop] at hcn hUn ⊢
     rcases hterm with e | ⟨k', v', e⟩
     · subst e
       have hd : Smt.delete bit32 (0 + fs.length) k (.empty : T) = .empty := rfl
-      rw [hd] at hcn ⊢
+      rw [hd] at hcn hUn ⊢
       have hlk : (nodeOf H hok (0 + fs.length) (.empty : T)).leafKey = zeroSum := rfl
       rw [hlk]
       by_cases hk : zeroSum = k.val
       · rw [if_pos hk]
-        exact deletePath_rep H hok S laws fs .empty st hcan hcn hst (.inl rfl)
+        exact deletePath_rep H hok S laws fs .empty st hcan hcn hU0 hUn hst (.inl rfl)
       · rw [if_neg hk, plugC_canon_noop hcan (.inl rfl)]
         exact ⟨_, rfl, hr0⟩
     · subst e
@@ -371,9 +378,9 @@ theorem delete_rep {s : SMT σ} {t : T} (hr : Rep H hok S s t) (k : Key32) :
       · have hk' : k' = k := Subtype.ext hk
         subst hk'
         have hd : Smt.delete bit32 (0 + fs.length) k' (.leaf k' v') = .empty := by simp [Smt.delete]
-        rw [hd] at hcn ⊢
+        rw [hd] at hcn hUn ⊢
         rw [if_pos hk]
-        exact deletePath_rep H hok S laws fs (.leaf k' v') st hcan hcn hst (.inr ⟨k', v', rfl⟩)
+        exact deletePath_rep H hok S laws fs (.leaf k' v') st hcan hcn hU0 hUn hst (.inr ⟨k', v', rfl⟩)
       · have hk' : k' ≠ k := fun e => hk (by rw [e])
         have hd : Smt.delete bit32 (0 + fs.length) k (.leaf k' v') = .leaf k' v' := by
           simp [Smt.delete, hk']
